@@ -19,7 +19,7 @@ Fixpoint db_of (tr : list event) : list nat * list nat :=
       match e_call e with
       | KClose => (comm, [])
       | KConnect => if e_ok e then (comm, []) else (comm, pend)
-      | KExecute SWrite => if e_ok e then (if intx then (comm, pend ++ [i]) else (comm ++ [i], pend)) else (comm, pend)
+      | KExecute SWrite | KExecMany SWrite => if e_ok e then (if intx then (comm, pend ++ [i]) else (comm ++ [i], pend)) else (comm, pend)
       | KCommit => if e_ok e then (if intx then (comm ++ pend, []) else (comm, pend)) else (comm, pend)
       | KRollback => if e_ok e then (comm, []) else (comm, pend)
       | _ => (comm, pend)
